@@ -842,6 +842,39 @@ theorem within_accepts_inside (cwd directory target : Chars) (h1 : (abspath cwd 
     isWithinDirectory cwd directory target = true :=
   within_complete cwd directory target h1 h
 
+/-- **no false refusal of an ordinary archive.** Into a folder given by an absolute path (one leading slash, no
+    trailing slash), an archive whose member names are relative and made of plain components (no empty, `.`
+    or `..` component) is accepted, and member `m` is written at the folder's components followed by those of `m`. -/
+theorem safe_extract_accepts_plain (cwd path : Chars) (members : List Chars)
+    (habs : isAbs path = true) (hend : ∃ x, path.getLast? = some x ∧ x ≠ '/')
+    (hone : (abspath cwd path).slashes = 1)
+    (hm : ∀ m ∈ members, isAbs m = false ∧ ∀ c ∈ splitSlash m, PlainComp c) :
+    safeExtract cwd path members
+      = .ok (members.map fun m => ⟨1, (abspath cwd path).comps ++ splitSlash m⟩) := by
+  have hloc : ∀ m ∈ members, abspath cwd (joinPath path m) = ⟨1, (abspath cwd path).comps ++ splitSlash m⟩ := by
+    intro m hmem
+    rw [abspath_join_plain cwd path m habs hend (hm m hmem).1 (hm m hmem).2, hone]
+  unfold safeExtract safeExtractWith
+  have hall : members.all (fun m => isWithinDirectory cwd path (joinPath path m)) = true := by
+    rw [List.all_eq_true]
+    intro m hmem
+    apply within_complete cwd path _ hone
+    unfold Inside
+    rw [hloc m hmem]
+    exact List.prefix_append _ _
+  rw [hall]
+  simp only [if_true]
+  show Except.ok _ = Except.ok _
+  congr 1
+  exact List.map_congr_left hloc
+
+example : isAbs "/data/netset".toList = true ∧ (abspath "/".toList "/data/netset".toList).slashes = 1 ∧
+    isAbs "wikivitals/adjacency.npz".toList = false ∧
+    ∀ c ∈ splitSlash "wikivitals/adjacency.npz".toList, PlainComp c := by
+  refine ⟨by decide, by decide, by decide, ?_⟩
+  unfold PlainComp
+  decide
+
 example : isWithinDirectory "/home/u".toList "data".toList "data/sub/../x.npz".toList = true ∧
     isWithinDirectory "/home/u".toList "data".toList "data/../data_evil/x".toList = false := by decide
 
